@@ -22,7 +22,7 @@ RULE = ('(a) REL/RELA sections and DT_REL/DT_RELA/DT_JMPREL tables (reached thro
         'ppc64/ppc64le/s390x/x86-64, -g -O1), as compiled and with the RELA-relocated fields pre-filled, read by an independent mini ELF '
         'reader and relocated by the same oracle. Non-trivial: an applied relocation whose exact result is negative or wraps at the field width, a '
         'big-endian applied field, a RELR bitmap word with >= 2 relocation bits, or an error-path case. Distinct by SHA-1 of the file.')
-N = {'quick': 6000, 'thorough': 400000}
+N = {'quick': 6000, 'thorough': 300000}
 ASSUMPTIONS = ['sh_entsize / DT_RELENT / DT_RELAENT / DT_RELRENT equal the entry size, table sizes are whole multiples of it; table addresses are non-zero and mapped by exactly one PT_LOAD',
                'RELR address entries are even (not necessarily word aligned) and small enough that no decoded address exceeds 2^class; a stream never starts with a bitmap',
                'relocatable objects: sh_addr = 0 (P = r_offset), symbols are not STT_FUNC (no Thumb/descriptor adjustments), S = st_value, fields lie inside the section and do not overlap except LoongArch ADDn/SUBn pairs of equal width on one field',
